@@ -581,7 +581,7 @@ package hclwrite
 //@ requires paired(from)
 //@ ensures counted: consumed == old(consumed) + len(from.nativeTokens) - len(ret0.nativeTokens) - len(ret2.nativeTokens)
 //@ ensures pairedOut: paired(ret0) && paired(ret2)
-//@ loop 1 invariant paired(from) && paired(beforeAll) && consumed == old(consumed) + len(old(from).nativeTokens) - len(from.nativeTokens) - len(beforeAll.nativeTokens)
+//@ loop 1 invariant paired(from) && paired(beforeAll) && (rangeindex == 0 - 1 ==> len(beforeAll.nativeTokens) == 0) && consumed == old(consumed) + len(old(from).nativeTokens) - len(from.nativeTokens) - len(beforeAll.nativeTokens)
 
 // verif:func parseAttribute
 //@ nosafety
